@@ -20,6 +20,7 @@ type internEngine struct {
 	// hist: the state-changing sequential ops of the current case, so that a conc op can be
 	// repeated on fresh copies of the same table state.
 	hist     []string
+	scratch  []byte
 	histConc bool
 }
 
@@ -131,6 +132,42 @@ func (e *internEngine) Exec(op string) string {
 		})
 	case w[0] == "query" && len(w) == 2:
 		id, ok := e.t.Query(string(UnHex(w[1])))
+		return fmt.Sprintf("%d %v", id, ok)
+	case w[0] == "internb" && len(w) == 2:
+		// InternBytes on a scratch buffer that the caller reuses right after the call returns
+		t := e.t
+		e.hist = append(e.hist, "intern "+w[1])
+		b := UnHex(w[1])
+		if cap(e.scratch) < len(b)+1 {
+			e.scratch = make([]byte, 0, 2*len(b)+64)
+		}
+		buf := append(e.scratch[:0], b...)
+		return internDeadline(5*time.Second, func() string {
+			var id int32
+			ok := true
+			func() {
+				defer func() {
+					if r := recover(); r != nil {
+						ok = false
+					}
+				}()
+				id = t.InternBytes(buf)
+			}()
+			for i := range buf {
+				buf[i] = 'x' // the caller reuses its buffer
+			}
+			if !ok {
+				return "panic"
+			}
+			return strconv.Itoa(int(id))
+		})
+	case w[0] == "queryb" && len(w) == 2:
+		b := UnHex(w[1])
+		buf := append(make([]byte, 0, len(b)+8), b...)
+		id, ok := e.t.QueryBytes(buf)
+		for i := range buf {
+			buf[i] = 'y'
+		}
 		return fmt.Sprintf("%d %v", id, ok)
 	case w[0] == "value" && len(w) == 2:
 		id, err := strconv.ParseInt(w[1], 10, 32)
@@ -526,7 +563,11 @@ func (e *internEngine) Gen(r *Rand, tier string) [][]string {
 			s := Pick(r, ps)
 			switch k := r.Intn(20); {
 			case k < 9:
-				c = append(c, "intern "+Hex(s))
+				if r.Chance(1, 3) {
+					c = append(c, "internb "+Hex(s))
+				} else {
+					c = append(c, "intern "+Hex(s))
+				}
 				tableIDs++
 			case k < 14:
 				c = append(c, "query "+Hex(s))
